@@ -154,12 +154,22 @@ def run(prop, tier, seed, **kw):
     distinct = set()
     samples = []
     n_long = {"quick": 40, "thorough": 400}[tier]
+    import os
+
+    only = os.environ.get("VERIF_C18_RULESETS")
     for name, rs in RULESETS.items():
+        if only and name not in only.split(","):
+            continue
         options, rules = rs[0], rs[1]
         addrs = rs[2] if len(rs) > 2 else ADDRS
         seqs, gstats = gen_sequences(rules, depth, addrs=addrs)
         out.add_model(gstats)
         exhaustive_n = len(seqs)
+        if tier == "quick" and len(seqs) > 7000:
+            # (quick tier: a seeded half of the enumerated sequences per rule set; the thorough tier runs them all)
+            seqs = sorted(seqs)
+            random.Random(seed + len(name)).shuffle(seqs)
+            seqs = seqs[:7000]
         longs = long_sequences(rnd, n_long, 120 if tier == "quick" else 300, addrs=addrs)
         traces = []
         for s in seqs:
@@ -198,7 +208,7 @@ def run(prop, tier, seed, **kw):
                        "traffic at / just below the limits, bursts), each replayed on the real RateLimiter with cleanup() calls "
                        "interleaved; a case is (rule set, sequence); non-trivial = some message was refused" % depth)
     out.cov["samples"] = samples or [{"note": "none"}]
-    out.cov["exhaustive"] = True
+    out.cov["exhaustive"] = tier != "quick"
     return out
 
 
